@@ -23,6 +23,14 @@ CHECKS = {
   text="History-level spec in Coq (positions compared by placement, side, rights, ep; insufficient material = bare kings or one minor; mate/stalemate from the proved legal_moves). Theorems: mate and stalemate are exclusive and equivalent to 'no legal move' (via C01_rules). Tie: after every ply of model-driven games (repetition shuffles, rule-50 crossings, material run-downs, mates, stalemates) the engine's seven answers equal the spec computed from the rules-level history (not from keys).",
   note="Partial: the refinement 'key-history predicates = history spec' (under no key collision) is stated in DESIGN.md and not yet proved; assumptions: clock < 256, game within history capacity. No axioms.",
   tech="Coq history-level spec + proved mate/stalemate characterisation; differential correspondence along generated games"),
+ "C05": dict(
+  text="Coq model SearchDriver of Search::Search (depth selection), Search::go and Search::iter_search with its aspiration loop; the root call of Search::search and both limit polls are ORACLES (any value, any pv head, any stop flag, any poll answer, a stop before the thread starts). Theorems for all oracles: go yields ONE answer and it is a root move (the legal move list, or the searchmoves list) whenever every root pv head is a root move (C05_bestmove); a stop before the first iteration is answered by the first root move (C05_stopped_before_start). Tie: the in-process Search (own table/evaluator, CHESSPP_VERIF hooks) is run on sessions with shared tables, every limit shape (tiny/zero/negative budgets), adversarially poisoned tables (illegal / foreign / NO_MOVE moves, all flags, depths to 200, mate and near-infinite scores, stale epochs), stop after exactly k node visits (k = 0..K) and at every schedule point; every recorded root call is replayed through the extracted model (exact sequence of windows, depths, info lines, bestmove) and checked against the theorem's hypotheses; bestmove and EVERY printed pv are judged by the extracted, proved rules (legal_moves).",
+  note="Partial by design: the search below the root (evaluation, table, ordering, pruning) is an adversarial oracle, so 'every pv is a legal line' is established by the differential runs against the proved rules oracle, not by a theorem about the node recursion (planned: node-level skeleton). Termination of the aspiration loop is not a theorem for adversarial oracles (it can oscillate in the model); every run terminated. No axioms.",
+  tech="Coq proof over an oracle-parametrised model of the iteration driver + replay of recorded root calls through the extracted model + differential runs judged by the proved rules"),
+ "C09": dict(
+  text="Theorems over the same oracle-parametrised model: for ALL oracles the reported iterations are exactly 1,2,...,k consecutively, k <= the depth limit, no root search deeper than the limit is started (C09_depth_sequence); go depth d with d >= 1 uses min(d, MAX_DEPTH), including d above the internal maximum (C09_go_depth, C09_depth_cap, with MAX_DEPTH re-extracted from the source); the answer under searchmoves is one of the given moves (C09_searchmoves). Tie: recorded runs (depth 1..5 with earlier searches in the table, depth 38..INT_MAX on instant positions, forced mates seen before the iteration reaches their length, random searchmoves subsets after an unrestricted search, finite time / clock / node limits) are judged directly and replayed through the extracted model.",
+  note="Termination under finite time/clock limits is checked by running (the clock is an oracle in the model; wall-clock duration of an iteration is not a theorem). No axioms.",
+  tech="Coq proof over the oracle-parametrised iteration-driver model + replay correspondence + direct judgement of recorded runs"),
  "C11": dict(
   text="Coq theorems C11_rook/C11_bishop/C11_queen: for every square and EVERY occupancy the model of init_*_magics + slider_attack<> (instantiated with the magics and index widths re-extracted from the working tree on every run) returns exactly the ray-walk-until-first-blocker set; proved by an exhaustive kernel sweep over all 107,648 table entries lifted to all occupancies by pdep/pext and walk-independence lemmas. Leaper, ray, LINES, FULL_LINES and castling tables: the tables the current code built (dumped each run) are proved equal to their geometric specs entry by entry. Tie: B1 regeneration of Gen/MagicData.v + B2 exhaustive differential run of the real slider_attack<>/tables against the extracted spec.",
   note="Trusted: Coq kernel + vm_compute; dumper.cpp; extraction (ExtrOcamlBasic) and the two drivers; the model of the init loop is hand-written and tied by B2 (exhaustive over the 107,648 relevant subsets + random full occupancies). shift<> is proved linear and single-square pawn attacks exact; no axioms (Print Assumptions: closed under the global context).",
